@@ -3,142 +3,515 @@ package main
 import (
 	"fmt"
 	"sort"
+	"sync"
 )
 
+// A Job is one harness entry point with one concrete configuration value.
+type Job struct {
+	Entry string
+	Cfg   int
+	Tier  int
+	res   *JobResult
+}
+
+type NondetVal struct {
+	Name string `json:"name"`
+	Val  uint64 `json:"val"`
+	W    int    `json:"w"`
+}
+
+type Obs struct {
+	Label string `json:"label"`
+	Val   int64  `json:"val"`
+}
+
+// PathRecord is a concrete representative of one explored symbolic path.
+type PathRecord struct {
+	Entry     string      `json:"entry"`
+	Cfg       int         `json:"cfg"`
+	Tier      int         `json:"tier"`
+	Nondet    []NondetVal `json:"nondet"`
+	Decisions []int64     `json:"decisions,omitempty"`
+	// expectations (filled by the engine, compared with the native run)
+	FailLabel string   `json:"fail_label,omitempty"` // assertion that must fail natively ("" = none)
+	Obs       []Obs    `json:"obs,omitempty"`
+	Reach     []string `json:"reach,omitempty"`
+	Outcome   string   `json:"outcome"` // "end", "panic", "assert"
+	PanicMsg  string   `json:"panic_msg,omitempty"`
+}
+
 type Violation struct {
-	label string
-	model map[string]uint64
-	path  []int64
+	Label string
+	Recs  []*PathRecord
+	Count int
 }
 
-type Explorer struct {
-	s       *Solver
-	prefix  []int64
-	pos     int
-	cur     []int64
-	work    [][]int64
-	reach   map[string]int
-	viols   map[string]*Violation
-	paths   int
-	aborted map[string]int
-	panics  map[string]int
-	vars    []*Term
+type JobResult struct {
+	mu        sync.Mutex
+	paths     int
+	decisions int
+	reach     map[string]int
+	asserts   map[string]int // label -> number of paths on which it was evaluated
+	viols     map[string]*Violation
+	aborted   map[string]int
+	panics    map[string]int
+	panicRecs map[string]*PathRecord
+	samples   []*PathRecord
+	inconcl   []string
+	ops       int
 }
 
-func (e *Explorer) next() (int64, bool) {
-	if e.pos < len(e.prefix) {
-		v := e.prefix[e.pos]
-		e.pos++
-		e.cur = append(e.cur, v)
-		return v, true
+func newJobResult() *JobResult {
+	return &JobResult{reach: map[string]int{}, asserts: map[string]int{}, viols: map[string]*Violation{},
+		aborted: map[string]int{}, panics: map[string]int{}, panicRecs: map[string]*PathRecord{}}
+}
+
+type WorkItem struct {
+	job    *Job
+	prefix []int64
+}
+
+// WorkQueue is a shared LIFO of pending path prefixes.
+type WorkQueue struct {
+	mu      sync.Mutex
+	cond    *sync.Cond
+	items   []WorkItem
+	busy    int
+	stopped bool
+}
+
+func NewWorkQueue() *WorkQueue {
+	q := &WorkQueue{}
+	q.cond = sync.NewCond(&q.mu)
+	return q
+}
+
+func (q *WorkQueue) Push(it WorkItem) {
+	q.mu.Lock()
+	q.items = append(q.items, it)
+	q.mu.Unlock()
+	q.cond.Signal()
+}
+
+// Pop blocks until an item is available or all workers are idle with an empty queue.
+func (q *WorkQueue) Pop() (WorkItem, bool) {
+	q.mu.Lock()
+	defer q.mu.Unlock()
+	for {
+		if q.stopped {
+			return WorkItem{}, false
+		}
+		if n := len(q.items); n > 0 {
+			it := q.items[n-1]
+			q.items = q.items[:n-1]
+			q.busy++
+			return it, true
+		}
+		if q.busy == 0 {
+			q.cond.Broadcast()
+			return WorkItem{}, false
+		}
+		q.cond.Wait()
 	}
-	return 0, false
+}
+
+func (q *WorkQueue) Done() {
+	q.mu.Lock()
+	q.busy--
+	idle := q.busy == 0 && len(q.items) == 0
+	q.mu.Unlock()
+	if idle {
+		q.cond.Broadcast()
+	}
+}
+
+func (q *WorkQueue) Stop() {
+	q.mu.Lock()
+	q.stopped = true
+	q.mu.Unlock()
+	q.cond.Broadcast()
+}
+
+func (q *WorkQueue) Len() int {
+	q.mu.Lock()
+	defer q.mu.Unlock()
+	return len(q.items)
+}
+
+// Explorer drives one path at a time for one worker.
+type Explorer struct {
+	tb  *TB
+	s   *Solver
+	q   *WorkQueue
+	job *Job
+
+	prefix []int64
+	pos    int
+	cur    []int64
+
+	vars    []*Term
+	inputs  []inputRec
+	witness map[string]uint64
+	memo    map[int]uint64
+
+	obs      []obsTerm
+	reached  []string
+	asserted map[string]bool
+	failed   string // first failed assertion label on this path (for records)
+	maxViol  int
+}
+
+type inputRec struct {
+	name string
+	v    *Term // nil for a concrete choice
+	cval uint64
+}
+
+type obsTerm struct {
+	label  string
+	t      *Term
+	signed bool
+}
+
+func (e *Explorer) startPath(it WorkItem) {
+	e.job = it.job
+	e.prefix, e.pos, e.cur = it.prefix, 0, make([]int64, 0, len(it.prefix)+16)
+	e.vars, e.inputs = nil, nil
+	e.witness, e.memo = nil, nil
+	e.obs, e.reached = nil, nil
+	e.asserted = map[string]bool{}
+	e.failed = ""
+	e.s.Reset()
+}
+
+func (e *Explorer) replaying() bool { return e.pos < len(e.prefix) }
+
+func (e *Explorer) next() int64 {
+	v := e.prefix[e.pos]
+	e.pos++
+	e.cur = append(e.cur, v)
+	return v
+}
+
+func (e *Explorer) decide(v int64) {
+	e.cur = append(e.cur, v)
+	e.pos++
+}
+
+func (e *Explorer) inconclusive(why string) {
+	r := e.job.res
+	r.mu.Lock()
+	if len(r.inconcl) < 20 {
+		r.inconcl = append(r.inconcl, why)
+	}
+	r.mu.Unlock()
+}
+
+// ensureWitness makes sure e.witness satisfies the asserted path condition.
+func (e *Explorer) ensureWitness() {
+	if e.witness != nil {
+		return
+	}
+	r, m := e.s.Check(e.tb.Bool(true), e.vars)
+	switch r {
+	case "sat":
+		e.witness = m
+		if e.witness == nil {
+			e.witness = map[string]uint64{}
+		}
+		e.memo = map[int]uint64{}
+	case "unsat":
+		panic(abortPath{"infeasible prefix"})
+	default:
+		e.inconclusive("unknown while obtaining witness")
+		panic(abortPath{"solver unknown"})
+	}
+}
+
+func (e *Explorer) evalW(t *Term) uint64 {
+	e.ensureWitness()
+	return t.Eval(e.witness, e.memo)
+}
+
+func (e *Explorer) setWitness(m map[string]uint64) {
+	e.witness = m
+	e.memo = map[int]uint64{}
+}
+
+func (e *Explorer) newVar(name string, w int) *Term {
+	v := e.tb.Var(fmt.Sprintf("n%d_%s", len(e.vars), sanitize(name)), w)
+	e.vars = append(e.vars, v)
+	e.inputs = append(e.inputs, inputRec{name: name, v: v})
+	// a fresh variable is unconstrained: any value extends the witness; 0 is used.
+	return v
+}
+
+func sanitize(s string) string {
+	b := []byte(s)
+	for i, c := range b {
+		if !(c >= 'a' && c <= 'z' || c >= 'A' && c <= 'Z' || c >= '0' && c <= '9' || c == '_') {
+			b[i] = '_'
+		}
+	}
+	return string(b)
 }
 
 func (e *Explorer) branch(c *Term) bool {
 	if c.IsConst() {
 		return c.val == 1
 	}
-	if v, ok := e.next(); ok {
+	if e.replaying() {
+		v := e.next()
 		if v == 1 {
 			e.s.Assert(c)
 		} else {
-			e.s.Assert(Not(c))
+			e.s.Assert(e.tb.Not(c))
 		}
 		return v == 1
 	}
-	canT := e.s.CheckWith(c) == "sat"
-	canF := e.s.CheckWith(Not(c)) == "sat"
-	switch {
-	case canT && canF:
-		alt := append(append([]int64{}, e.cur...), 0)
-		e.work = append(e.work, alt)
-		e.cur = append(e.cur, 1)
-		e.pos++
-		e.s.Assert(c)
-		return true
-	case canT:
-		e.cur = append(e.cur, 1)
-		e.pos++
-		e.s.Assert(c)
-		return true
-	case canF:
-		e.cur = append(e.cur, 0)
-		e.pos++
-		e.s.Assert(Not(c))
-		return false
+	dir := e.evalW(c) == 1
+	var other *Term
+	if dir {
+		other = e.tb.Not(c)
+	} else {
+		other = c
 	}
-	panic(abortPath{"infeasible path"})
+	r, _ := e.s.Check(other, nil)
+	if r == "unknown" {
+		e.inconclusive("unknown at branch")
+		r = "sat" // over-approximate: keep the branch
+	}
+	if r == "sat" {
+		alt := make([]int64, len(e.cur)+1)
+		copy(alt, e.cur)
+		if dir {
+			alt[len(e.cur)] = 0
+		} else {
+			alt[len(e.cur)] = 1
+		}
+		e.q.Push(WorkItem{e.job, alt})
+	}
+	if dir {
+		e.decide(1)
+		e.s.Assert(c)
+	} else {
+		e.decide(0)
+		e.s.Assert(e.tb.Not(c))
+	}
+	return dir
 }
 
 func (e *Explorer) assume(c *Term) bool {
 	if c.IsConst() {
 		return c.val == 1
 	}
-	if e.pos < len(e.prefix) { // replaying: known feasible
+	if e.replaying() {
 		e.s.Assert(c)
 		return true
 	}
-	if e.s.CheckWith(c) != "sat" {
-		return false
+	if e.evalW(c) == 1 {
+		e.s.Assert(c)
+		return true
 	}
-	e.s.Assert(c)
-	return true
+	r, m := e.s.Check(c, e.vars)
+	switch r {
+	case "sat":
+		e.s.Assert(c)
+		e.setWitness(m)
+		return true
+	case "unknown":
+		e.inconclusive("unknown at assume")
+	}
+	return false
 }
 
+// choice returns a concrete value in [0,n); every value is explored.
+func (e *Explorer) choice(name string, n int) int {
+	v := e.choice1(n)
+	e.inputs = append(e.inputs, inputRec{name: name, cval: uint64(v)})
+	return v
+}
+
+func (e *Explorer) choice1(n int) int {
+	if n <= 1 {
+		return 0
+	}
+	if e.replaying() {
+		return int(e.next())
+	}
+	for v := n - 1; v >= 1; v-- {
+		alt := make([]int64, len(e.cur)+1)
+		copy(alt, e.cur)
+		alt[len(e.cur)] = int64(v)
+		e.q.Push(WorkItem{e.job, alt})
+	}
+	e.decide(0)
+	return 0
+}
+
+// concretize picks a feasible concrete value for t; every feasible value is explored on some path.
 func (e *Explorer) concretize(t *Term) uint64 {
+	if t.IsConst() {
+		return t.val
+	}
 	for {
 		var v uint64
-		if pv, ok := e.next(); ok {
-			v = uint64(pv)
+		if e.replaying() {
+			v = uint64(e.next())
 		} else {
-			tmp := Var("conc_tmp", t.w)
-			m := e.s.ModelWith(Cmp("=", tmp, t), []*Term{tmp})
-			v = m["conc_tmp"]
-			e.cur = append(e.cur, int64(v))
-			e.pos++
+			v = e.evalW(t)
+			e.decide(int64(v))
 		}
-		if e.branch(Cmp("=", t, Const(t.w, v))) {
+		if e.branch(e.tb.Cmp("=", t, e.tb.Const(t.w, v))) {
 			return v
 		}
 	}
 }
 
+func (e *Explorer) record(outcome, panicMsg string) *PathRecord {
+	rec := &PathRecord{Entry: e.job.Entry, Cfg: e.job.Cfg, Tier: e.job.Tier, Outcome: outcome, PanicMsg: panicMsg, FailLabel: e.failed}
+	e.ensureWitness()
+	for _, ir := range e.inputs {
+		if ir.v == nil {
+			rec.Nondet = append(rec.Nondet, NondetVal{ir.name, ir.cval, 64})
+		} else {
+			rec.Nondet = append(rec.Nondet, NondetVal{ir.name, e.witness[ir.v.name] & mask64(ir.v.w), ir.v.w})
+		}
+	}
+	for _, o := range e.obs {
+		x := o.t.Eval(e.witness, e.memo)
+		var sv int64
+		if o.t.w == 0 {
+			sv = int64(x)
+		} else if o.signed {
+			sv = sext(x, o.t.w)
+		} else {
+			sv = int64(x)
+		}
+		rec.Obs = append(rec.Obs, Obs{o.label, sv})
+	}
+	rec.Reach = append([]string{}, e.reached...)
+	rec.Decisions = append([]int64{}, e.cur...)
+	return rec
+}
+
 func (e *Explorer) assert(label string, c *Term) {
+	res := e.job.res
+	if !e.asserted[label] {
+		e.asserted[label] = true
+		res.mu.Lock()
+		res.asserts[label]++
+		res.mu.Unlock()
+	}
 	if c.True() {
 		return
 	}
-	if e.pos < len(e.prefix) {
+	if e.replaying() {
 		e.s.Assert(c)
 		return
 	}
-	if c.False() || e.s.CheckWith(Not(c)) == "sat" {
-		if _, ok := e.viols[label]; !ok {
-			m := e.s.ModelWith(Not(c), e.vars)
-			e.viols[label] = &Violation{label, m, append([]int64{}, e.cur...)}
+	violated := false
+	if c.False() || e.evalW(c) == 0 {
+		violated = true
+	} else {
+		r, m := e.s.Check(e.tb.Not(c), e.vars)
+		switch r {
+		case "sat":
+			violated = true
+			e.setWitness(m)
+		case "unknown":
+			e.inconclusive("unknown at assert " + label)
 		}
+	}
+	if violated {
+		save := e.failed
+		e.failed = label
+		rec := e.record("assert", "")
+		e.failed = save
+		res.mu.Lock()
+		v := res.viols[label]
+		if v == nil {
+			v = &Violation{Label: label}
+			res.viols[label] = v
+		}
+		v.Count++
+		if len(v.Recs) < 3 {
+			v.Recs = append(v.Recs, rec)
+		}
+		res.mu.Unlock()
 		if c.False() {
 			panic(abortPath{"assert false"})
 		}
-	}
-	if e.s.CheckWith(c) != "sat" {
-		panic(abortPath{"assert always fails"})
+		// continue the path under the assumption that the assertion held
+		r, m := e.s.Check(c, e.vars)
+		switch r {
+		case "sat":
+			e.setWitness(m)
+		case "unsat":
+			panic(abortPath{"assert always fails"})
+		default:
+			e.inconclusive("unknown after assert " + label)
+			panic(abortPath{"solver unknown"})
+		}
 	}
 	e.s.Assert(c)
 }
 
-func (e *Explorer) report() {
-	fmt.Printf("paths=%d queries=%d sat=%d unsat=%d solver=%.2fs terms=%d\n", e.paths, e.s.queries, e.s.sat, e.s.unsat, e.s.dur.Seconds(), termCnt)
-	fmt.Println("reach:", e.reach)
-	fmt.Println("aborted:", e.aborted)
-	fmt.Println("panics:", e.panics)
-	var ls []string
-	for l := range e.viols {
-		ls = append(ls, l)
+func (e *Explorer) reach(label string) {
+	e.reached = append(e.reached, label)
+}
+
+func (e *Explorer) observe(label string, t *Term, signed bool) {
+	e.obs = append(e.obs, obsTerm{label, t, signed})
+}
+
+// finishPath records the outcome of a completed path.
+func (e *Explorer) finishPath(outcome, msg string, sampleCap int) {
+	res := e.job.res
+	var rec *PathRecord
+	res.mu.Lock()
+	need := len(res.samples) < sampleCap
+	needPanic := outcome == "panic" && res.panicRecs[msg] == nil
+	res.mu.Unlock()
+	if (need || needPanic) && (outcome == "end" || outcome == "panic") {
+		func() {
+			defer func() {
+				if r := recover(); r != nil {
+					if _, ok := r.(abortPath); !ok {
+						panic(r)
+					}
+				}
+			}()
+			rec = e.record(outcome, msg)
+		}()
 	}
-	sort.Strings(ls)
-	for _, l := range ls {
-		v := e.viols[l]
-		fmt.Printf("VIOLATION label=%s model=%v\n", l, v.model)
+	res.mu.Lock()
+	res.paths++
+	res.decisions += len(e.cur)
+	switch outcome {
+	case "end":
+		for _, l := range e.reached {
+			res.reach[l]++
+		}
+		if rec != nil && len(res.samples) < sampleCap {
+			res.samples = append(res.samples, rec)
+		}
+	case "panic":
+		res.panics[msg]++
+		if rec != nil && res.panicRecs[msg] == nil {
+			res.panicRecs[msg] = rec
+		}
+	default:
+		res.aborted[msg]++
 	}
+	res.mu.Unlock()
+}
+
+func sortedKeys[V any](m map[string]V) []string {
+	ks := make([]string, 0, len(m))
+	for k := range m {
+		ks = append(ks, k)
+	}
+	sort.Strings(ks)
+	return ks
 }
